@@ -72,6 +72,7 @@ func randPL(r *rand.Rand, sparse float64) absPL {
 		c.Events[k] = randLevel(r, 0.5+sparse/2)
 	}
 	c.Notif["room"] = randLevel(r, sparse)
+	c.Notif["here"] = randLevel(r, 0.5+sparse/2)
 	return c
 }
 
@@ -140,6 +141,9 @@ func randomScenario(r *rand.Rand) *authScenario {
 		if ev.Membership == "join" {
 			ev.AuthVia = mostly(r, 0.5, "none", "creator", "alice", "bob", "carol", "invalid")
 		}
+		if ev.Membership != "invite" && r.Float64() < 0.05 {
+			ev.TPI = pick(r, "ok", "notoken")
+		}
 		if ev.Membership == "invite" && r.Float64() < 0.3 {
 			ev.TPI = pick(r, "ok", "ok", "mxid_mismatch", "notoken")
 			if ev.Target == "carol" && ev.TPI == "mxid_mismatch" {
@@ -163,7 +167,7 @@ func randomScenario(r *rand.Rand) *authScenario {
 				case 2:
 					ev.NewPL.Events[pick(r, evKeys...)] = randLevel(r, 0.3)
 				case 3:
-					ev.NewPL.Notif["room"] = randLevel(r, 0.3)
+					ev.NewPL.Notif[pick(r, "room", "here")] = randLevel(r, 0.3)
 				}
 			}
 		} else {
